@@ -4,11 +4,13 @@ import (
 	"encoding/json"
 	"fmt"
 	"net/url"
+	"reflect"
 	"strings"
 	"time"
 
 	"github.com/ja7ad/otp"
 	"github.com/ja7ad/otp/verifharness/ev"
+	"github.com/ja7ad/otp/verifharness/ref"
 )
 
 // warmups are calls of OTHER operations of the library, made on the same goroutine just before the
@@ -83,6 +85,10 @@ var warmups = func() []struct {
 			otp.NewRawSuite("OCRA-1:HOTP-SHA1-6:QX08")
 			otp.NewSuite(otp.SuiteConfig{Digits: 11})
 		}},
+		// the caller decodes the SAME secret text the case uses and overwrites the bytes it got back (a careful
+		// caller wipes key material): what it does with its own slice must not reach any later call
+		{"same-secret-decoded-and-wiped", nil},
+		{"same-secret-decoded-and-overwritten", nil},
 		{"helpers", func() {
 			otp.ParseDecimalChallengeRFC6287("99999999")
 			otp.ParseDecimalToBigEndian8("18446744073709551615")
@@ -92,6 +98,24 @@ var warmups = func() []struct {
 		}},
 	}
 }()
+
+// caseSecrets finds the secret texts of a case: a SecretText method, or string fields named Secret / Text.
+func caseSecrets(c any) []string {
+	if s, ok := c.(interface{ SecretText() string }); ok {
+		return []string{s.SecretText()}
+	}
+	v := reflect.ValueOf(c)
+	if v.Kind() != reflect.Struct {
+		return nil
+	}
+	var out []string
+	for _, n := range []string{"Secret", "Text"} {
+		if f := v.FieldByName(n); f.IsValid() && f.Kind() == reflect.String {
+			out = append(out, f.String())
+		}
+	}
+	return out
+}
 
 type afterCase struct {
 	Warm string          `json:"after"`
@@ -105,6 +129,24 @@ func afterWarmups[T any](r *ev.Run, scen string, cases []T, eval func(T) (obs, b
 		emptySyncPools()
 		for _, x := range warmups {
 			if x.Name == w {
+				if x.Run == nil {
+					fill := byte(0)
+					if strings.HasSuffix(w, "overwritten") {
+						fill = 0xA5
+					}
+					x.Run = func() {
+						// first some OTHER texts, so that whatever remembers "the last one(s)" no longer holds this one
+						for k := 0; k < 3; k++ {
+							otp.DecodeSecret(ref.B32Encode([]byte(fmt.Sprintf("evict-%d-%s", k, w))))
+						}
+						for _, text := range caseSecrets(c) {
+							raw, _ := otp.DecodeSecret(text)
+							for i := range raw {
+								raw[i] = fill
+							}
+						}
+					}
+				}
 				if p := try(x.Run); p != "" {
 					return "panic:" + p, "warm-up " + w + " panicked: " + p
 				}
